@@ -11,7 +11,7 @@ Names(rules) == {rules[i].n : i \in DOMAIN rules}
 Has(rules, n) == n \in Names(rules)
 Val(rules, n) == rules[CHOOSE i \in DOMAIN rules : rules[i].n = n].v
 NumOf(rv) == N!NF(rv.b)
-UIntOf(rv) == N!DigitsToInt(N!TakeDigits(rv.b), 0)
+UIntOf(rv) == Count(rv.b)              \* (Sem!Count: ten digits or more stand for "more than any length")
 IsTrue(rules, n) == Has(rules, n) /\ Val(rules, n).t = "bool" /\ Val(rules, n).bv
 
 Scalar(kind) == kind \in {"int", "flt", "str", "bool", "null"}
